@@ -1,8 +1,9 @@
 import NetVerif.Driver.Util
 import NetVerif.Model.WriteSched
+import NetVerif.Model.WriteSched7540
 /-! Line-protocol driver for the HTTP/2 write-scheduler models (C12, C13).
 
-ops:  reset <rr|p9218|rand> <maxFrame> <connWin> <initWin>
+ops:  reset <rr|p9218|rand> <maxFrame> <connWin> <initWin> | reset p7540 <maxFrame> <connWin> <initWin> <maxClosed> <maxIdle> <throttle>
       open <id> <pusher> <u> <i> | close <id> | adjust <id> <dep> <excl> <weight> <u> <i>
       data <id> <tag> <len> <fin> | hdr <id> <tag> | ctl <tag> | rst <id> <tag>
       win <id> <delta> (id 0 = connection) | maxframe <n> | pop [served-stream|-]
@@ -14,6 +15,7 @@ namespace NetVerif.Driver.C12
 structure St where
   e : Env := { maxFrame := 16384, connWin := 65535, win := fun _ => 65535 }
   s : Option Sched := none
+  p : Option P7540 := none
 
 def b01 (b : Bool) : String := if b then "1" else "0"
 
@@ -34,10 +36,32 @@ def showRes : Res → String
 def parseBool (s : String) : Option Bool :=
   if s == "0" then some false else if s == "1" then some true else none
 
+def showIds (l : List Nat) : String := if l.isEmpty then "-" else ",".intercalate (l.map toString)
+
+def qlen (q : WQ) : Nat := q.curr.length + q.next.length
+
+def dumpSched : Sched → String
+  | .rr s => s!"rr ctl={qlen s.control} ring={showIds s.ring} q=" ++ String.join (s.ring.map fun id => s!"{qlen (s.qs id)},")
+  | .p9 s =>
+    s!"p9 ctl={qlen s.control} t={b01 s.toggle} buf={s.bufId}:{s.bufClass}" ++
+      String.join ((List.range 16).map fun c => if (s.ring c).isEmpty then "" else s!" r{c}={showIds (s.ring c)}")
+  | .rnd s => s!"rand ctl={qlen s.zero} sq={showIds (s.sq.mergeSort (· ≤ ·))}"
+
+partial def dumpTree (s : P7540) (nid : Nat) : String :=
+  let n := s.node nid
+  s!"({n.id} w{n.weight} s{n.state} b{n.bytes} t{n.sub} q{n.q.clen - n.q.cpos + n.q.nlen}" ++
+    String.join (n.kids.map (dumpTree s)) ++ ")"
+
+def dumpP7 (s : P7540) : String :=
+  let ids := (s.nodes.map (·.1)).mergeSort (· ≤ ·)
+  s!"p7 max={s.maxID} lim={s.limit} pool={s.pool.length} closed={showIds (s.closedL.map fun n => (s.node n).id)} " ++
+  s!"idle={showIds (s.idleL.map fun n => (s.node n).id)} nodes={showIds ids} tree={dumpTree s 0}"
+
 def doOp (st : St) (op : Op) : St × String :=
-  match st.s with
-  | none => (st, "bad-op")
-  | some s => let (e', s', r) := s.step st.e op; ({ e := e', s := some s' }, showRes r)
+  match st.s, st.p with
+  | some s, _ => let (e', s', r) := s.step st.e op; ({ e := e', s := some s' }, showRes r)
+  | none, some p => let (e', p', r) := p.step st.e op; ({ e := e', p := some p' }, showRes r)
+  | none, none => (st, "bad-op")
 
 def step (st : St) (line : String) : St × String :=
   match tokens line with
@@ -50,6 +74,12 @@ def step (st : St) (line : String) : St × String :=
       else if k == "rand" then ({ e := e, s := some (.rnd {}) }, "ok")
       else (st, "bad-op")
     | _, _, _ => (st, "bad-op")
+  | ["reset", k, mf, cw, iw, mc, mi, th] =>
+    match parseInt mf, parseInt cw, parseInt iw, parseNat mc, parseNat mi, parseBool th with
+    | some mf, some cw, some iw, some mc, some mi, some th =>
+      let e : Env := { maxFrame := mf, connWin := cw, win := fun _ => iw }
+      if k == "p7540" then ({ e := e, s := none, p := some (P7540.init mc mi th) }, "ok") else (st, "bad-op")
+    | _, _, _, _, _, _ => (st, "bad-op")
   | ["open", id, pu, u, i] =>
     match parseNat id, parseNat pu, parseNat u, parseNat i with
     | some id, some pu, some u, some i =>
@@ -83,14 +113,17 @@ def step (st : St) (line : String) : St × String :=
   | ["win", id, d] =>
     match parseNat id, parseInt d with
     | some id, some d =>
-      match st.s with
-      | none => (st, "bad-op")
-      | some _ => doOp st (.win id d)
+      doOp st (.win id d)
     | _, _ => (st, "bad-op")
   | ["maxframe", n] =>
     match parseInt n with
     | some n => doOp st (.maxframe n)
     | none => (st, "bad-op")
+  | ["dump"] =>
+    match st.s, st.p with
+    | some s, _ => (st, "ok " ++ dumpSched s)
+    | none, some p => (st, "ok " ++ dumpP7 p)
+    | none, none => (st, "bad-op")
   | ["pop"] => doOp st (.pop none)
   | ["pop", h] =>
     if h == "-" then doOp st (.pop none)
